@@ -2039,12 +2039,9 @@ class GitPreviewTree(PreviewTree, GitTree):
         if trans_id is None:
             # It doesn't exist, so it's not versioned.
             return False
-        if trans_id in self._transform._versioned:
-            return True
-        if trans_id in self._transform._removed_id:
-            return False
-        orig_path = self._transform.tree_path(trans_id)
-        return self._transform._tree.is_versioned(orig_path)
+        # (also correct for entries created by the transform, which have no
+        # path in the original tree)
+        return self._transform.final_is_versioned(trans_id)
 
     def iter_entries_by_dir(self, specific_files=None, recurse_nested=False):
         """Iterate over entries in the tree by directory.
